@@ -148,7 +148,7 @@ def observe_all(prog, rng, lanes, keys, addrs=(), with_list=True, read=True):
 
 def history_program(rng, length, lanes=ALL_LANES, nkeys=6, ndata=5, removal_weight=0.2,
                     bulk=False, observe_every=1, full_opts=False, algos=("sha256",), plant=False,
-                    stray=False):
+                    stray=False, garbage=False):
     """Random history of keyed writes (several entry points), raw inserts, removals of all kinds,
     with lookups of every key and a listing after every mutating step."""
     prog = small_universe(rng, nkeys, ndata)
@@ -198,6 +198,11 @@ def history_program(rng, length, lanes=ALL_LANES, nkeys=6, ndata=5, removal_weig
                 prog["steps"].append({"op": "clear", "lane": lane})
             else:
                 prog["steps"].append({"op": "remove", "lane": lane, "key": k})
+        elif r >= 0.93 and garbage:
+            # a line that is no record (torn, foreign, not UTF-8, checksummed junk) ends up in the
+            # key's bucket between two operations: later records must still be found
+            prog["steps"].append({"op": "env_bucket", "key": k, "mode": "insert_line", "index": 10 ** 6,
+                                  "bytes": rng.choice(GARBAGE_LINES).hex()})
         elif r >= 0.90 and stray:
             # a file that is no key's bucket appears inside the index tree (desktop metadata, an
             # NFS leftover, a note someone dropped there), next to or above this key's bucket
@@ -360,6 +365,26 @@ def roundtrip_program(rng, ncases, lanes=ALL_LANES, big=False, algos=ALGOS):
                                       "all": True})
                 prog["steps"].append({"op": "r_check", "lane": lane, "h": rd})
         prog["steps"].append({"op": "exists", "lane": rng.choice(lanes), "sri": [{"a": algo, "d": d}]})
+    return prog
+
+
+def big_chunk_program(rng, sizes=(2 * MIB + 1, 3 * MIB + 17), lanes=ALL_LANES):
+    """systematic: data handed over as ONE buffer larger than any internal buffer of the runtimes
+    (2 MiB is tokio's per-operation ceiling), through the one-shot call and through one write_all
+    of a writer, in every lane; read back by key and by address"""
+    prog = {"keys": {}, "blobs": {}, "steps": []}
+    c = 0
+    for lane in lanes:
+        for n in sizes:
+            for how in ("oneshot", "opts"):
+                d = _mk_data(prog, rng, n)
+                key = add_key(prog, rand_key(rng, c))
+                opts = {"size": n} if (how == "opts" and rng.random() < 0.5) else {}
+                prog["steps"] += write_steps(rng, prog, lane, d, n, "sha256", key, how, [(0, n)], opts, alias="bw%d" % c)
+                prog["steps"].append({"op": "read", "lane": rng.choice(lanes), "key": key})
+                prog["steps"].append({"op": "read", "lane": lane, "sri": [{"a": "sha256", "d": d}]})
+                prog["steps"].append({"op": "remove_fully", "lane": "S", "key": key})
+                c += 1
     return prog
 
 
@@ -787,6 +812,19 @@ def algo_program(rng, ncases, lanes=ALL_LANES):
                                          rng.choice(["oneshot", "opts"]), rng.choice(chunkings(rng, nn)),
                                          {}, alias="h%d" % c)
         observe_all(prog, rng, lanes, keys, sorted(seen), with_list=(rng.random() < 0.3))
+        if rng.random() < 0.4:
+            # an address given as an Integrity with hashes of SEVERAL algorithms: the strongest one
+            # names the file (whether or not the weaker one's copy exists); removal by such a
+            # value removes that copy only
+            dd = rng.choice(datas)
+            a1, a2 = rng.sample(["sha512", "sha384", "sha256", "sha1"], 2)
+            multi = [{"a": a1, "d": dd}, {"a": a2, "d": dd}]
+            prog["steps"].append({"op": "exists", "lane": rng.choice(lanes), "sri": multi})
+            prog["steps"].append({"op": "read", "lane": rng.choice(lanes), "sri": multi})
+            if rng.random() < 0.3:
+                prog["steps"].append({"op": "remove_hash", "lane": rng.choice(lanes), "sri": multi})
+                for aa in (a1, a2):
+                    prog["steps"].append({"op": "exists", "lane": rng.choice(lanes), "sri": [{"a": aa, "d": dd}]})
     return prog
 
 
@@ -816,11 +854,15 @@ def link_program(rng, ncases, lanes=ALL_LANES):
         pre = rng.random() < 0.2
         if pre:   # the address already exists as regular content
             prog["steps"].append({"op": "write", "lane": rng.choice(lanes), "data": d, "algo": "sha256"})
-        elif rng.random() < 0.15:
+        elif rng.random() < 0.3:
             # the address already exists as a link to ANOTHER file holding the same bytes
             t0 = "t%dtwin" % c
             prog["steps"].append({"op": "env_ext", "id": t0, "blob": d})
             prog["steps"].append({"op": "link_to", "lane": rng.choice(lanes), "target": t0})
+            if rng.random() < 0.5:
+                # ... and that other file is gone by now: the address holds a DANGLING link; linking
+                # again must fail or succeed without writing anything through the stale link
+                prog["steps"].append({"op": "env_ext", "id": t0, "blob": None})
         how = rng.choice(["oneshot", "linker", "linker_opts"])
         expect_ok = True
         # the target named through other spellings of the same file
